@@ -4,4 +4,7 @@ import PycsepVerif.Source.C07
 import PycsepVerif.Source.C08
 import PycsepVerif.Source.C15
 import PycsepVerif.Source.C16
+import PycsepVerif.SourceSM.C06
+import PycsepVerif.SourceSM.C12
+import PycsepVerif.SourceSM.C04
 -- REGISTER-SRC (one `import PycsepVerif.Source.Cxx` line per property with a source tie, above this line)
